@@ -540,7 +540,7 @@ Proof. intros Ht Hg. apply C06_none_iff_dead; [exact Hg | now apply session_tabl
 Lemma repetition_filter_nil g : repetition_filter g [] = [].
 Proof.
   unfold repetition_filter. destruct (g_moves g) as [|m1 [|m2 [|m3 [|m4 [|m5 t]]]]]; try reflexivity.
-  destruct (move_eqb m1 m5); reflexivity.
+  destruct (move_eqb m1 m5 && is_reversal m4 m2 && is_reversal m5 m3); reflexivity.
 Qed.
 
 Lemma root_sorted_dead g st : checked_moves g = [] -> root_sorted g st = [].
@@ -589,7 +589,7 @@ Proof.
   - unfold driver. rewrite (driver_loop_dead_tbl g Hd). reflexivity.
   - intros Hf. unfold driver.
     assert (Esd : starting_depth t g = 1) by (unfold starting_depth; rewrite Hf; reflexivity).
-    rewrite Esd. change 256%nat with (S 255). cbn [driver_loop].
+    rewrite Esd. change 256%nat with (S 255). generalize 255%nat. intros fuel. cbn [driver_loop].
     change (255 <? 1) with false. cbv iota.
     rewrite root_dead; [|exact Hd|cbn [fresh_state s_tbl]; rewrite Hf; reflexivity].
     change (SCORE_MIN + 1 <? SCORE_MIN + EXIT_BAND_LOW) with true.
